@@ -627,7 +627,11 @@ func prelude(t *testing.T) {
 	// more than 1 MiB of bitmap data (about 75,000 distinct values): writers
 	// that bound their transactions by size commit several times here
 	for _, w := range []int{fix.WBig, fix.WMemFile} {
-		spec := gen.DataSpec{Recipe: &gen.Recipe{N: 75000, Cols: []gen.ColSpec{
+		n := 75000
+		if w == fix.WBig {
+			n = 160000 // more than 2 MiB of bitmap data also through the big writer
+		}
+		spec := gen.DataSpec{Recipe: &gen.Recipe{N: n, Cols: []gen.ColSpec{
 			{Name: "u", Prefix: "row-number-", Kind: gen.KUnique}, {Name: "a", Kind: gen.KMod, K: 7, Prefix: "v"}}}}
 		run(t, &Case{Data: spec, Mode: "commit-points", Writer: w})
 	}
@@ -638,6 +642,14 @@ func prelude(t *testing.T) {
 				{Name: "a", Kind: gen.KMod, K: 3, Prefix: "v"}, {Name: "u", Prefix: "r", Kind: gen.KUnique}}}}
 			run(t, &Case{Data: spec, Mode: "commit-points", Writer: w})
 		}
+	}
+	// a 160,000-record CSV (more than 2 MiB of key/value data, a file of 16 MiB
+	// that grows in two steps) killed when the output has reached 3/4 of its
+	// final size, in both modes
+	for _, big := range []bool{false, true} {
+		spec := gen.DataSpec{Recipe: &gen.Recipe{N: 160000, Cols: []gen.ColSpec{
+			{Name: "u", Prefix: "row-number-", Kind: gen.KUnique}, {Name: "a", Kind: gen.KMod, K: 7, Prefix: "v"}}}}
+		run(t, &Case{Data: spec, Mode: "kill-at-size", Big: big, Frac: 750})
 	}
 	for _, n := range []int{0, 1, 1001, 2500} {
 		for w := 0; w < fix.NWriters; w++ {
@@ -668,10 +680,10 @@ func TestQuick(t *testing.T) {
 	fix.Check(t, "kill-at-size", 20, func(rt *rapid.T) {
 		run(rt, &Case{Data: drawData(rt, 3100), Mode: "kill-at-size", Big: rapid.Bool().Draw(rt, "big"), Frac: rapid.IntRange(0, 999).Draw(rt, "frac")})
 	})
-	fix.Check(t, "kill-at-size-big", 8, func(rt *rapid.T) {
+	fix.Check(t, "kill-at-size-big", 12, func(rt *rapid.T) {
 		spec := gen.DataSpec{Recipe: &gen.Recipe{N: 40000, Cols: []gen.ColSpec{
 			{Name: "u", Prefix: "row-number-", Kind: gen.KUnique}, {Name: "a", Kind: gen.KMod, K: 7, Prefix: "v"}}}}
-		run(rt, &Case{Data: spec, Mode: "kill-at-size", Big: rapid.Bool().Draw(rt, "big"), Frac: rapid.IntRange(0, 999).Draw(rt, "frac")})
+		run(rt, &Case{Data: spec, Mode: "kill-at-size", Big: rapid.IntRange(0, 2).Draw(rt, "big") == 0, Frac: rapid.IntRange(0, 999).Draw(rt, "frac")})
 	})
 	// --big mode with enough distinct values that the bitmaps alone exceed 1 MiB
 	fix.Check(t, "kill-at-size-bigmode", 5, func(rt *rapid.T) {
